@@ -374,7 +374,8 @@ def selection_complete(ctx, prog):
     gr = ctx.fa("lbry.wallet.database.get_and_reserve_spendable_utxos")
     fl = gr.fi.params()[3]
     loops = [w for w in gr.stmts(ast.While) if fl in {x.id for x in ast.walk(w.test) if isinstance(x, ast.Name)}]
-    grow = [a for a in gr.stmts(ast.AugAssign) if dotted(a.target) == fl and isinstance(a.op, ast.Mult)]
+    grow = [a for a in gr.stmts(ast.AugAssign) if dotted(a.target) == fl and isinstance(a.op, ast.Mult)] + \
+        [a for a in gr.stmts(ast.Assign) if len(a.targets) == 1 and dotted(a.targets[0]) == fl and f"{fl} * " in gr.expanded_text(a.value, keep=(fl,))]
     ctx.floor("C03-D6/PROGRESS", "geometric search loop over the floor", min(len(loops), len(grow)), 1, site=gr.site(), func=gr.fi.qualname)
     for w in loops:
         pos = False
